@@ -148,7 +148,9 @@ class WeightedSum(Component):
                 if result is None:
                     result = value * weight
                 else:
-                    result += value * weight
+                    # not in place: a masked term must mask the sum,
+                    # whichever input is named first
+                    result = result + value * weight
 
             self._out_data = result
             self._last_update = time
